@@ -61,6 +61,17 @@ def evaluate(case, out):
     out.cls(cfg["family"])
     test = nonneg.make_test(cfg)
     xa = np.array(x, dtype=float)
+    if len(x) % 2 == 0:
+        # the upper bound of a test object is re-assigned when margins become known (Assertion.set_margin_from_cvrs):
+        # estimators / bets asked before that, under a larger bound, must not influence the values under the final one
+        try:
+            test.u = u * 1.25
+            with np.errstate(all="ignore"):
+                (test.estim if cfg["test"] == "alpha_mart" else test.bet)(xa)
+        except Exception:  # noqa
+            pass
+        test.u = u
+        out.cls("bound-lowered-after-an-earlier-request")
     mu = mu_seq(N, t, x)
     judged = [0 < m <= u for m in mu]
     if not all(judged):
